@@ -70,6 +70,18 @@ func StringToAmount(s string) (massutil.Amount, error) {
 	if len(s1) > 2 {
 		return massutil.ZeroAmount(), fmt.Errorf("illegal number format")
 	}
+	// Decimal digits only: strconv.ParseInt below takes a leading sign in either part,
+	// so "+1", "-0.5" (read as 0.5) and "1.+5" (read as 1.05) used to be accepted.
+	for k, part := range s1 {
+		for i := 0; i < len(part); i++ {
+			if c := part[i]; c < '0' || c > '9' {
+				if k == 0 && c == '-' {
+					return massutil.ZeroAmount(), fmt.Errorf("integral part is out of range")
+				}
+				return massutil.ZeroAmount(), fmt.Errorf("illegal number format")
+			}
+		}
+	}
 	var sInt, sFrac string
 	// preproccess integral part
 	sInt = strings.TrimLeft(s1[0], "0")
